@@ -159,27 +159,42 @@ def canon_structure(dump, hoe):
     return progs.structure_coq(st)
 
 
-def coq_run(ctx, lib, name, shards, header, timeout=3600):
-    """shards: list of (prelude_text, [expr]). Returns per shard the parsed values (or an exception string)."""
+def coq_run(ctx, lib, name, shards, header, timeout=1200, allow_skip=False):
+    """shards: list of (prelude_text, [expr]). Returns per shard the parsed values. A shard whose coqc run exceeds the time
+    limit is split in halves and retried (an expression that alone exceeds 300 s yields the string "TIMEOUT": some reference
+    chases of generated programs blow up; such cases are skipped and counted, never judged)."""
     d = os.path.join(VERIF, "coq", lib)
     os.makedirs(os.path.join(d, "gen"), exist_ok=True)
+    counter = [0]
 
-    def one(i):
-        prelude, exprs = shards[i]
+    def evaluate(prelude, exprs, limit, tag):
         if not exprs:
             return []
-        f = os.path.join(d, "gen", "cases_%s_%d.v" % (name, i))
+        counter[0] += 1
+        f = os.path.join(d, "gen", "cases_%s_%s_%d.v" % (name, tag, counter[0]))
         with open(f, "w") as fh:
             fh.write(header + "\n" + prelude + "\n")
             for e in exprs:
                 fh.write("Eval vm_compute in (%s).\n" % e)
-        rc, out = sh("coqc -noglob -Q . %s gen/cases_%s_%d.v" % (lib, name, i), cwd=d, timeout=timeout)
+        rc, out = sh("coqc -noglob -Q . %s %s" % (lib, os.path.relpath(f, d)), cwd=d, timeout=limit)
+        if rc == 124 and not allow_skip:
+            raise RuntimeError("coqc timed out after %ss on %s" % (limit, f))
+        if rc == 124:
+            if len(exprs) == 1:
+                return ["TIMEOUT"]
+            half = len(exprs) // 2
+            nl = max(300, limit // 2)
+            return evaluate(prelude, exprs[:half], nl, tag) + evaluate(prelude, exprs[half:], nl, tag)
         if rc != 0:
             raise RuntimeError("coqc failed on %s: %s" % (f, tail(out, 15)))
         vals = split_eval_outputs(out)
         if len(vals) != len(exprs):
             raise RuntimeError("%d values for %d expressions in %s" % (len(vals), len(exprs), f))
         return [parse_coq_value(v) for v in vals]
+
+    def one(i):
+        prelude, exprs = shards[i]
+        return evaluate(prelude, exprs, timeout, "s%d" % i)
     ctx.checker_cmds.append("cd coq/%s && coqc -noglob -Q . %s gen/cases_%s_*.v" % (lib, lib, name))
     with ThreadPoolExecutor(max_workers=16) as ex:
         return list(ex.map(one, range(len(shards))))
@@ -233,13 +248,19 @@ class Judge:
             shards[s][1].extend(exprs)
             shards[s][2].extend(cbs)
         try:
-            vals = coq_run(self.ctx, "Sem", self.name, [("\n".join(p), e) for (p, e, _) in shards], HEADER)
+            vals = coq_run(self.ctx, "Sem", self.name, [("\n".join(p), e) for (p, e, _) in shards], HEADER, allow_skip=True)
         except Exception as ex:
             self.ctx.broken.append("oracle evaluation failed: %s" % str(ex)[:400])
             return False
+        skipped = 0
         for (p, e, cbs), vs in zip(shards, vals):
             for cb, v in zip(cbs, vs):
+                if v == "TIMEOUT":
+                    skipped += 1      # oracle / reference too expensive for this case: not judged
+                    continue
                 cb(v)
+        if skipped:
+            self.ctx.cov["oracle_timeouts_skipped"] = self.ctx.cov.get("oracle_timeouts_skipped", 0) + skipped
         return True
 
 
